@@ -30,7 +30,7 @@ func init() {
 	})
 	Register(&Rule{
 		Name:  "R-SESSION-LIFE",
-		Props: []string{"C14"},
+		Props: []string{"C14", "C16"},
 		Min:   7,
 		Doc: "join codes: the insertion into Store.byCode is reachable only through the 'not present' outcome of a lookup of the same key in the same critical section; GetByJoinCode returns found only past the expiry comparison; " +
 			"the expiry timer callback and the host's deferred cleanup both delete the session; the host cleanup is registered before any return that follows the peer's registration in the hub; " +
